@@ -604,19 +604,17 @@ int bignum_cmp(bn_t a, bn_t b)
 /* Signed compare bn */
 int bignum_cmp_signed(bn_t a, bn_t b)
 {
-	int i = BN_ARRAY_SIZE;
-	do {
-		i -= 1; /* Decrement first, to start with last array element */
-		if ((DTYPE_SIGNED)a.array[i] > (DTYPE_SIGNED)b.array[i]) {
-			return LARGER;
-		}
-		else if ((DTYPE_SIGNED)a.array[i] < (DTYPE_SIGNED)b.array[i]) {
-			return SMALLER;
-		}
-	}
-	while (i != 0);
+	int i = BN_ARRAY_SIZE - 1;
 
-	return EQUAL;
+	/* Only the most significant word carries the sign */
+	if ((DTYPE_SIGNED)a.array[i] > (DTYPE_SIGNED)b.array[i]) {
+		return LARGER;
+	}
+	else if ((DTYPE_SIGNED)a.array[i] < (DTYPE_SIGNED)b.array[i]) {
+		return SMALLER;
+	}
+	/* Same most significant word: the other words compare as unsigned */
+	return bignum_cmp(a, b);
 }
 
 
